@@ -776,6 +776,8 @@ def run(chk, tier, only_rule=None):
     check_bson_size(chk, tier)
     check_cbor_tag_flags(chk, tier)
     check_adaptor_levels(chk, tier)
+    from . import c03
+    c03.r03_11(chk, F.load(['core'], tier))   # every kind of source hands a long value out of a scratch buffer that holds that value only
     check_decimal128_fields(chk, tier)
     from . import c15
     for u_ in ('cbor', 'msgpack', 'ubjson', 'bson'):
